@@ -65,6 +65,47 @@ func (g *FuncGen) execCall(x *ssa.Call, st *State) error {
 						}
 					}
 				}
+				// a variable assigned on several paths is a phi at the join: the innermost
+				// dominating phi carrying the variable's name is its value here, unless a
+				// plain definition comes after it
+				cand := map[string]*ssa.Phi{}
+				for _, b := range g.fn.Blocks {
+					if !b.Dominates(blk) {
+						continue
+					}
+					for _, ins := range b.Instrs {
+						phi, ok := ins.(*ssa.Phi)
+						if !ok {
+							break
+						}
+						if phi.Comment == "" {
+							continue
+						}
+						if _, isParam := g.paramTerms[phi.Comment]; isParam {
+							continue
+						}
+						if _, known := g.vals[phi]; !known {
+							continue
+						}
+						if c, ok := cand[phi.Comment]; !ok || c.Block().Dominates(b) {
+							cand[phi.Comment] = phi
+						}
+					}
+				}
+				for name, phi := range cand {
+					laterDef := false
+					for _, d := range g.debugRef[name] {
+						if d.addr || !d.block.Dominates(blk) || (d.block == blk && d.pos >= x.Pos()) {
+							continue
+						}
+						if phi.Block().Dominates(d.block) {
+							laterDef = true // same block: phis come first
+						}
+					}
+					if !laterDef {
+						env.vars[name] = Val{g.val(phi), phi.Type()}
+					}
+				}
 				// the call's own arguments (receiver first): $arg0, $arg1, ...
 				for i, a := range com.Args {
 					env.vars[fmt.Sprintf("$arg%d", i)] = Val{g.valOrAddr(a, st), a.Type()}
